@@ -57,7 +57,18 @@ def run_history(gd, history, limit):
             removed_any = True
         if out.status == "budget":
             return None, k, removed_any
-        obs = (out.status, out.result, out.msg)
+        obs = copy.deepcopy((out.status, out.result, out.msg))
+        if out.result is not None and k % 2 == 0:
+            # what a caller may do with the lists it got back; a later solve must not see it
+            try:
+                for i in (0, 1):
+                    for lst in out.result[i]:
+                        if isinstance(lst, list):
+                            lst.append("MARK")
+                for i in (2, 3, 6, 7):
+                    out.result[i][:] = [-1] * len(out.result[i])
+            except Exception:
+                pass
         if prune not in first:
             first[prune] = (k, obs)
         elif obs != first[prune][1]:
@@ -67,6 +78,19 @@ def run_history(gd, history, limit):
             problems.append({"step": k, "how": how, "prune": prune, "problem": "the caller's description changed after this solve"})
             desc = copy.deepcopy(pristine)          # keep looking for further, independent problems
             sg = None
+    # the description itself changes (a sink becomes a second final state, written into the caller's own list): the object built
+    # earlier and a fresh object on the same lists must then agree with each other
+    if sg is not None and len(history) % 2 == 0:
+        n = len(desc["players"])
+        sinks = [s for s in range(n) if all(t == s for _, t in desc["transition_list"][s]) and s not in desc["final_states"] and desc["rewards"][s] == 0]
+        if sinks:
+            desc["final_states"].append(sinks[0])
+            a = monitors.observed_solve(desc, False, limit, sg=sg)
+            b = monitors.observed_solve(desc, False, limit)
+            if a.status != "budget" and b.status != "budget" and (a.status, a.result, a.msg) != (b.status, b.result, b.msg):
+                problems.append({"problem": "after a final state was added to the description, the existing game object and a fresh one disagree",
+                                 "same_object": a.brief(), "fresh": b.brief()})
+            desc["final_states"].pop()
     for ev in MON.drain("alias"):
         problems.append({"problem": "M-ALIAS: caller's %s changed during solve (prune=%s, raised=%s)" % (ev["changed"], ev["prune"], ev["raised"]),
                          "before": ev["before"], "after": ev["after"]})
